@@ -13,6 +13,9 @@ import Iodata.Lemmas.Fmt.Pdb
 import Iodata.Lemmas.Fmt.PdbConect
 import Iodata.Lemmas.Fmt.Fchk
 import Iodata.Lemmas.Fmt.Cube
+import Iodata.Lemmas.Fmt.Mol2
+import Iodata.Lemmas.Fmt.Fcidump
+import Iodata.Lemmas.Fmt.Poscar
 import Iodata.Gen.Layouts
 
 namespace Iodata.Props.C02
@@ -313,5 +316,83 @@ example : Cube.Dom cubeL ⟨[], ⟨⟨true, 123456789012⟩, ⟨false, 0⟩, ⟨
     [⟨⟨false, 1⟩, ⟨false, 0⟩, ⟨false, 0⟩⟩, ⟨⟨false, 0⟩, ⟨true, 5⟩, ⟨false, 0⟩⟩, ⟨⟨false, 0⟩, ⟨false, 0⟩, ⟨false, 999999999⟩⟩],
     [⟨8, ⟨false, 6000000⟩, ⟨true, 1⟩, ⟨false, 2⟩, ⟨false, 3⟩⟩, ⟨1, ⟨false, 1000000⟩, ⟨false, 0⟩, ⟨false, 0⟩, ⟨false, 0⟩⟩],
     cubeVals 14⟩ := by decide +kernel
+
+end Iodata.Props.C02
+
+namespace Iodata.Props.C02
+open Iodata.Chars Iodata.Decimal Iodata.Fmt Iodata.Gen.Layouts
+
+/-! ## MOL2 -/
+
+/-- MOL2: the written file (comment, blank lines, MOLECULE record with title and counts, ATOM records, optional BOND
+records) is read back as the object: any number of atoms and bonds (no column limits: every field is blank separated),
+every element, coordinates and charges of any magnitude and sign, any blank-free atom type, every bond type of the table
+(others come back as `un`); absent atom types come back as the element symbol, absent charges as 0. -/
+theorem mol2_load_dump (T : Tables) (L : Mol2.Layout) (hL : Mol2.LayoutOK T L) (o : Mol2.Obj) (h : Mol2.Dom T L o) :
+    Mol2.load T L (Mol2.dump T L o) = .ok (Mol2.norm T L o) :=
+  Mol2.load_dump T L hL o h
+
+/-- MOL2: objects with known elements are written, not refused. -/
+theorem mol2_written_not_refused (T : Tables) (L : Mol2.Layout) (o : Mol2.Obj) (h : Mol2.Dom T L o) :
+    Mol2.dumpE T L o = .ok (Mol2.dump T L o) := by
+  unfold Mol2.dumpE
+  have : (o.atoms.all fun a => (T.sym? a.zn).isSome) = true := by
+    rw [List.all_eq_true]; intro a ha
+    obtain ⟨s, hs, _⟩ := Mol2.okZ_spec (h.2.1 a ha).1
+    simp [hs]
+  simp [this]
+
+/-- MOL2: layout side conditions, all 118 elements are recognised from their symbol, every bond type name maps back,
+and the writer in the source has the shape the model assumes. -/
+theorem mol2_layout_ok : Mol2.LayoutOK tables mol2L ∧ (∀ z ∈ List.range' 1 118, Mol2.okZ tables z = true) ∧
+    mol2_writes = Mol2.expectedWrites mol2L := by decide +kernel
+
+/-- non-vacuity: wide and negative coordinates, a long atom type, absent type/charge, every kind of bond type. -/
+example : Mol2.Dom tables mol2L ⟨[], [⟨17, ⟨true, 123456789012345⟩, ⟨false, 0⟩, ⟨true, 0⟩, some "Cl.very.long".toList, some ⟨true, 12345⟩⟩,
+    ⟨1, ⟨false, 1⟩, ⟨false, 2⟩, ⟨false, 3⟩, none, none⟩], some [⟨0, 1, 1⟩, ⟨1, 0, 4⟩, ⟨0, 1, 99⟩]⟩ := by decide +kernel
+
+/-! ## FCIDUMP, index layer of the two-electron integrals -/
+
+/-- FCIDUMP: for every number of orbitals and every 8-fold symmetric array, the array the reader rebuilds
+(`set_four_index_element(two_mo, ii, ik, ij, il, value)` per line, starting from zeros) from the lines of the writer's canonical
+loop (`i1 ≤ i0`, `i3 ≤ i2`, `i0(i0+1)/2+i1 ≥ i2(i2+1)/2+i3`, zeros skipped, chemists' `(i0 i1|i2 i3)` = physicists'
+`[i0, i2, i1, i3]`) equals the written array at every position: nothing permuted, nothing lost, no element attached to a
+different index quadruple. -/
+theorem fcidump_two_electron_roundtrip (α : Type) [DecidableEq α] (zero : α) (n : Nat) (T : Helpers.Idx → α) (h : Fcidump.Sym T)
+    (p : Helpers.Idx) (hp : p.1 < n ∧ p.2.1 < n ∧ p.2.2.1 < n ∧ p.2.2.2 < n) :
+    Fcidump.fill zero (Fcidump.entries zero n T) p = T p :=
+  Fcidump.fill_entries zero n T h p hp
+
+/-- FCIDUMP: the writer's loop emits exactly the canonical index quadruples with a non-zero element, all inside the array. -/
+theorem fcidump_loop_spec (α : Type) [DecidableEq α] (zero : α) (n : Nat) (T : Helpers.Idx → α) (e : Fcidump.Entry α) :
+    e ∈ Fcidump.entries zero n T ↔ e.i0 < n ∧ e.i1 ≤ e.i0 ∧ e.i2 < n ∧ e.i3 ≤ e.i2 ∧
+      Fcidump.tri e.i0 + e.i1 ≥ Fcidump.tri e.i2 + e.i3 ∧ T (e.i0, e.i2, e.i1, e.i3) ≠ zero ∧ e.v = T (e.i0, e.i2, e.i1, e.i3) :=
+  Fcidump.mem_entries zero n T e
+
+/-- non-vacuity: two orbitals give the six canonical quadruples in the writer's order. -/
+example : (Fcidump.entries (0 : Int) 2 (fun _ => 1)).map (fun e => (e.i0, e.i1, e.i2, e.i3)) =
+    [(0, 0, 0, 0), (1, 0, 0, 0), (1, 0, 1, 0), (1, 1, 0, 0), (1, 1, 1, 0), (1, 1, 1, 1)] := by decide
+
+/-! ## POSCAR, structure layer -/
+
+/-- POSCAR: the documented re-ordering — atoms grouped by element, heaviest first — is a permutation of the atoms (none
+lost, none duplicated, each keeps its own coordinates), keeps the original order inside every element, and the element
+and count lines expand (in the reader) to exactly the atomic numbers of the written sequence. -/
+theorem poscar_grouping (α : Type) (key : α → Nat) (atoms : List α) :
+    (Poscar.group key atoms).Perm atoms ∧
+    (∀ z, (Poscar.group key atoms).filter (fun a => key a == z) = atoms.filter (fun a => key a == z)) ∧
+    (Poscar.group key atoms).map key = Poscar.expand (Poscar.counts key atoms) ∧
+    (Poscar.uniqDesc (atoms.map key)).Pairwise (· > ·) :=
+  ⟨Poscar.group_perm key atoms, Poscar.group_stable key atoms, Poscar.group_keys key atoms, Poscar.uniqDesc_sorted _⟩
+
+/-- POSCAR: direct coordinates.  In exact arithmetic the reader's `frac · cell` undoes the writer's `inv(cell)ᵀ · r` for every
+cell with non-zero determinant (explicit 3×3 adjugate), so any deviation of the real code is floating-point round-off only. -/
+theorem poscar_fractional_roundtrip (cell : Poscar.M3) (h : Poscar.det cell ≠ 0) (r : Poscar.V3) :
+    Poscar.toCart cell (Poscar.toFrac cell r) = r :=
+  Poscar.toCart_toFrac cell h r
+
+/-- non-vacuity: Z = [1, 8, 1, 6, 8] is written in the order O O C H H = atoms 1, 4, 3, 0, 2. -/
+example : Poscar.group (fun (a : Nat × Nat) => a.1) [(1, 0), (8, 1), (1, 2), (6, 3), (8, 4)] = [(8, 1), (8, 4), (6, 3), (1, 0), (1, 2)] ∧
+    Poscar.counts (fun (a : Nat × Nat) => a.1) [(1, 0), (8, 1), (1, 2), (6, 3), (8, 4)] = [(8, 2), (6, 1), (1, 2)] := by decide
 
 end Iodata.Props.C02
